@@ -6,7 +6,7 @@
 
 package internalsrv
 
-//@ unit internal_handler frames=on props=C03,C12 filter=`internalsrv\.Internal\)\.ServeHTTP$`
+//@ unit internal_handler frames=on props=C03,C12,C09 filter=`internalsrv\.Internal\)\.ServeHTTP$`
 //@ ghost nextCalls int
 //@ // redirectPending abstracts "the response header carries X-Accel-Redirect" (what isInternalRedirect reads): any pass down
 //@ // the chain may set it, ClearHeader removes it
@@ -27,6 +27,8 @@ package internalsrv
 
 //@ define protected(k int) bool = httpserver.Path(old(r.URL.Path)).Matches(i.Paths[k])
 
+//@ // C09 reads this contract too: the decision is stated over r.URL.Path AS IT ARRIVES at this handler - i.e. as the
+//@ // directives earlier in the fixed order (rewrite, tryfiles, ext) left it - not over the URL the client first sent
 //@ func (Internal).ServeHTTP
 //@   requires r != nil && r.URL != nil && i.Next != nil
 //@   modifies URL.Path, ghost:nextCalls, ghost:redirectPending, MV:map[string][]string, MD:map[string][]string
